@@ -151,6 +151,24 @@ func checkFloatLiteral(c *Ctx, cs *h.Case) {
 				c.Rec.Violate(cs, "DecodeFloat64 wrote target on error", "DecodeFloat64", "target unchanged", fmt.Sprint(tgt))
 			}
 		}
+		// longer whitespace prefixes (every length 3..24) on an eighth of the shorter literals: digit-count
+		// and chunk thresholds must be measured from the number, not from the start of the data
+		if len(lit) < 64 && (c.Thorough() || h.Hash(cs.Input)%8 == 0) {
+			c.Rec.C("literals_swept_over_whitespace_prefix_lengths")
+			for k := 3; k <= 24; k++ {
+				in := make([]byte, 0, k+len(lit)+1)
+				for i := 0; i < k; i++ {
+					in = append(in, " \t\n\r"[(i+k)%4])
+				}
+				in = append(in, lit...)
+				if k%2 == 0 {
+					in = append(in, ',')
+				}
+				got, p, err := rjson.ReadFloat64(in)
+				c.Rec.Evals(1)
+				checkFloatResult(c, cs, "ReadFloat64", in, got, p, err, want, wantOK, k+len(lit))
+			}
+		}
 		// numbers inside generic decoding
 		docs := []string{lit, "[" + lit + "]", `{"a":` + lit + `}`, "[0, " + lit + " ,1]"}
 		di := r.Intn(len(docs))
